@@ -86,7 +86,7 @@ func preBlock(fw *formatWriter, source []byte, cursor *commonmark.Cursor) (child
 	switch k := curr.Kind(); k {
 	case commonmark.ParagraphKind:
 		if !isFirstParagraph(cursor) {
-			fw.s("\n")
+			separateBlock(fw, cursor)
 		}
 		return "", true
 	case commonmark.ThematicBreakKind:
@@ -102,12 +102,10 @@ func preBlock(fw *formatWriter, source []byte, cursor *commonmark.Cursor) (child
 		}
 		return "", true
 	case commonmark.ListKind:
-		if fw.hasWritten {
-			// End the previous line or separate the list from the preceding block.
-			// (A loose list needs this too: its first item does not start with a blank line,
-			// and a preceding paragraph in a tight list item has not ended its line.)
-			fw.s("\n")
-		}
+		// End the previous line or separate the list from the preceding block.
+		// (A loose list needs this too: its first item does not start with a blank line,
+		// and a preceding paragraph in a tight list item has not ended its line.)
+		separateBlock(fw, cursor)
 		return "", true
 	case commonmark.ListItemKind:
 		if cursor.Index() > 0 && !curr.IsTightList() {
@@ -123,9 +121,7 @@ func preBlock(fw *formatWriter, source []byte, cursor *commonmark.Cursor) (child
 		}
 		return childrenIndent, true
 	case commonmark.LinkReferenceDefinitionKind:
-		if fw.hasWritten {
-			fw.s("\n")
-		}
+		separateBlock(fw, cursor)
 		fw.s("[")
 		fw.s(curr.Child(0).Inline().LinkReference())
 		fw.s("]: ")
@@ -138,24 +134,18 @@ func preBlock(fw *formatWriter, source []byte, cursor *commonmark.Cursor) (child
 		fw.s("\n")
 		return "", false
 	case commonmark.BlockQuoteKind:
-		if fw.hasWritten {
-			fw.s("\n")
-		}
+		separateBlock(fw, cursor)
 		fw.s("> ")
 		return "> ", true
 	case commonmark.IndentedCodeBlockKind:
-		if fw.hasWritten {
-			fw.s("\n")
-		}
+		separateBlock(fw, cursor)
 		for i, n := 0, codeFenceLength(source, curr); i < n; i++ {
 			fw.s("`")
 		}
 		fw.s("\n")
 		return "", true
 	case commonmark.FencedCodeBlockKind:
-		if fw.hasWritten {
-			fw.s("\n")
-		}
+		separateBlock(fw, cursor)
 		c := [1]byte{codeFenceChar(source, curr)}
 		for i, n := 0, codeFenceLength(source, curr); i < n; i++ {
 			fw.b(c[:])
@@ -166,22 +156,31 @@ func preBlock(fw *formatWriter, source []byte, cursor *commonmark.Cursor) (child
 		fw.s("\n")
 		return "", true
 	case commonmark.ATXHeadingKind:
-		if fw.hasWritten {
-			fw.s("\n")
-		}
+		separateBlock(fw, cursor)
 		for i, n := 0, curr.HeadingLevel(); i < n; i++ {
 			fw.s("#")
 		}
 		fw.s(" ")
 		return "", true
 	case commonmark.SetextHeadingKind, commonmark.HTMLBlockKind:
-		if fw.hasWritten {
-			fw.s("\n")
-		}
+		separateBlock(fw, cursor)
 		return "", true
 	default:
 		return "", false
 	}
+}
+
+// separateBlock ends the previous line or separates a block from the one before it.
+func separateBlock(fw *formatWriter, cursor *commonmark.Cursor) {
+	if !fw.hasWritten {
+		return
+	}
+	if !fw.startedLine && cursor.ParentBlock().IsTightList() {
+		// The previous block has ended its line already:
+		// a blank line between two blocks of an item would turn a tight list into a loose one.
+		return
+	}
+	fw.s("\n")
 }
 
 func isFirstParagraph(cursor *commonmark.Cursor) bool {
